@@ -81,18 +81,20 @@ PARSE_PROPS = {
              "hand-picked crashers of the pinned tree + character soups, token soups, mutated/truncated documents, multi-byte characters and "
              "Unicode whitespace injected into gaps/comments/docs/strings, sets of up to 6 partly malformed files, generic nesting to depth "
              "64, inputs up to 20 KB (64 KiB in thorough); every case runs under catch_unwind with a per-shard timeout",
-             runs=[("parse", "P", ["corr_parse_shape"]), ("validate", "V", ["corr_C01_ids"])], x_checks=["keys", "determinism"],
+             runs=[("parse", "P", ["corr_parse_shape"]), ("validate", "V", ["corr_C01_ids"]), ("history", "H", [])],
+             x_checks=["keys", "determinism", "history"],
              py_oracle=o_C01, trusted_base=TB_PARSE, assumptions=ASSUME_PARSE + ["native stack depth and running time are observed (no abort, no timeout), not proved"],
              distribution=dist_parse),
-    "C02": P(["Model/LrDriver.v"], [], gens.gen_C02,
+    "C02": P(["Model/LrDriver.v", "Proofs/Sim.v", "Proofs/Hom.v", "Proofs/UserHom.v", "Proofs/Lockstep.v", "Properties/C02.v"], [], gens.gen_C02,
              "abstract documents over all item/member/type/value/annotation forms (types nested to depth 4, trailing commas), each rendered "
              "in 4 layouts (minimal separators; single spaces; wild: Unicode whitespace, CRLF, line/block comments with arbitrary text; safe); "
              "the tree must mirror the abstract document (names, kinds, structure, directions, flags, codes, values, annotations) in "
              "every layout",
-             level="other", runs=[("parse", "P", ["corr_parse_shape"])], py_oracle=o_C02, rerender=gens.rerender,
+             runs=[("parse", "P", ["corr_parse_shape"])], py_oracle=o_C02, rerender=gens.rerender,
              trusted_base=TB_PARSE, assumptions=ASSUME_PARSE + ["the abstract-document printer and mirror oracle (lib/gen.py, lib/oracles.py) state what 'mirrors' means"],
              distribution=dist_parse),
-    "C03": P(["Model/LrDriver.v", "Proofs/Totality.v", "Proofs/Master.v", "Proofs/RegexLang.v", "Proofs/LexerSafe.v", "Proofs/Keywords.v", "Properties/C03.v"], [], gens.gen_C03,
+    "C03": P(["Model/LrDriver.v", "Proofs/Totality.v", "Proofs/Master.v", "Proofs/RegexLang.v", "Proofs/LexerSafe.v", "Proofs/Keywords.v",
+              "Proofs/Words.v", "Proofs/Typing.v", "Proofs/UserTyped.v", "Proofs/Automaton.v", "Proofs/DriverSafe.v", "Properties/C03.v"], [], gens.gen_C03,
              "well-formed documents (must be accepted silently), documents malformed by construction (keyword or reserved word as item / "
              "member / package name, missing package, two items, trailing text: must carry an Error), token-level mutations and soups "
              "(no tree => Error; no keyword stored as identifier), lexical corner cases; validation must keep every parse-stage diagnostic",
